@@ -13,7 +13,7 @@ RULE = ('one run = a generated ReverseProxyBasePlugin route table (1-3 static ro
         '--rewrite-host-header on or off; random.choice is a tape draw; observed through the kernel\'s connect log, '
         'the origin transcript (h11) and the client transcript; non-trivial = the request matches a route with '
         'several URLs or several routes, or is segmented, or has a body; distinct = distinct event-log digests')
-PROBES = ['no_match', 'one_match', 'several_match', 'multi_url_route', 'dynamic_url', 'dynamic_literal', 'rewrite_host',
+PROBES = ['followup_literal', 'no_match', 'one_match', 'several_match', 'multi_url_route', 'dynamic_url', 'dynamic_literal', 'rewrite_host',
           'explicit_port', 'url_with_path', 'name_upstream', 'body', 'chunked_body', 'segmented', 'routed_right',
           'answered_404']
 COMPONENTS = {
@@ -26,7 +26,8 @@ ASSUMPTIONS = ['https upstream URLs are not exercised (they need the simulated T
                'request paths carry no query string (whether a route regex is applied to the path or to path+query is '
                'not fixed by the documentation)',
                'when several routes match, any URL of any matching route is accepted as the target',
-               'one request per connection (later requests on the same connection are C04)']
+               'one request per connection, optionally followed by one request that a dynamic route answers with a literal '
+               'response (other sequences on one connection are C04)']
 TIERS = {
     'quick': {'runs': 7000, 'budget_s': 40, 'max_body': 300},
     'thorough': {'runs': 700000, 'budget_s': 900, 'max_body': 20000},
@@ -74,7 +75,7 @@ def run_one(tape: Any, cfg: Dict[str, Any], forbid: FrozenSet[str] = frozenset()
             table.append((rx_, urls))
         dyn: Dict[str, Any] = {}
         LIT = okResponse(content=b'literal-response', headers={b'X-Origin': b'literal'}, compress=False)
-        if g.feature('dynamic_route', 0.3):
+        if g.feature('dynamic_route', 0.45):
             if tape.coin(0.5, 'dynkind'):
                 table.insert(tape.draw(len(table) + 1, 'dynpos'), r'/dyn/(.*)$')
                 dyn[r'/dyn/(.*)$'] = Url.from_bytes(b'http://10.0.5.9:8080/dynbase')
@@ -144,11 +145,20 @@ def run_one(tape: Any, cfg: Dict[str, Any], forbid: FrozenSet[str] = frozenset()
                 w.probe('segmented')
             script: List[Any] = [('sleep', 0.3 * k), ('connect',),
                                  ('send', raw, 'cuts', cuts) if cuts else ('send', raw, 'burst'),
-                                 ('wait_rx', lambda p: _count(bytes(p.rx)) >= 1), ('sleep', 0.2), ('close',)]
+                                 ('wait_rx', lambda p: _count(bytes(p.rx)) >= 1)]
+            followup = bool(cands) and not literal and r'/lit/.*' in dyn and g.feature('followup_literal', 0.5)
+            if followup:
+                # a second request on the same connection, answered by the dynamic route's literal response:
+                # it must not reach any upstream
+                w.probe('followup_literal')
+                nontrivial = True
+                script += [('send', b'GET /lit/again HTTP/1.1\r\nHost: public.example\r\n\r\n', 'burst'),
+                           ('wait_rx', lambda p: _count(bytes(p.rx)) >= 2)]
+            script += [('sleep', 0.2), ('close',)]
             c = Peer(w, 'c%d' % k, script, read_mode='chunky')
             c.connect_fn = h.connector()
             conns.append({'client': c, 'path': path, 'raw': raw, 'meta': meta, 'matching': matching, 'cands': cands,
-                          'literal': literal, 'klass': klass})
+                          'literal': literal, 'klass': klass, 'followup': followup})
             states.add(hash((klass, rewrite, meta['method'], meta['framing'], literal)) & 0xffffffff)
         marks: List[int] = []
 
@@ -246,7 +256,12 @@ def run_one(tape: Any, cfg: Dict[str, Any], forbid: FrozenSet[str] = frozenset()
                     w.fail('wrong_body', sig + ':' + meta['framing'], 'decoded body differs (%d vs %d bytes)' % (len(r['body']), len(meta['body'])))
                     break
                 sent = resp_by_origin.get(tgt, [])
-                if idx >= len(sent) or rx != sent[idx]:
+                if cn['followup'] and idx < len(sent):
+                    if rx != sent[idx] + bytes(LIT):
+                        w.fail('followup_literal_wrong', sig, 'second request on the connection matches the literal route: client must get '
+                               'the upstream response followed by the literal one, got %r' % rx[len(sent[idx]) - 20:][:200])
+                        break
+                elif idx >= len(sent) or rx != sent[idx]:
                     w.fail('response_altered', sig, 'client received %r..., origin sent %r...' % (rx[:80], (sent[idx] if idx < len(sent) else b'')[:80]))
                     break
                 if tgt == ('10.0.5.9', 8080):
